@@ -390,12 +390,19 @@ fn fresh_object_race(base: &GameState, step: Option<Action>, n: usize) -> Option
                 }
             }
             g2.store(i + 1, Ordering::Release);
-            for _ in 0..((i * 7) % 160) {
-                std::hint::spin_loop();
+            // copies in a tight row for as long as the asker is inside its first query (at most 48), so
+            // that some of them fall into the middle of it
+            let mut cls: Vec<GameState> = Vec::with_capacity(48);
+            let mut child = None;
+            while cls.len() < 48 {
+                cls.push(o2[i].clone());
+                if cls.len() == 8 {
+                    child = step.map(|a| o2[i].take_action(&a));
+                }
+                if d2.load(Ordering::Acquire) > i && cls.len() >= 8 {
+                    break;
+                }
             }
-            // several copies in a row, so that one of them falls into the middle of the first query
-            let cls = [o2[i].clone(), o2[i].clone(), o2[i].clone(), o2[i].clone(), o2[i].clone(), o2[i].clone()];
-            let child = step.map(|a| o2[i].take_action(&a));
             for cl in cls.iter() {
                 if fp_str(&actions_text(&cl.valid_actions())) != want_clone && bad.is_none() {
                     bad = Some((i, "a clone made while the state was asked for the first time"));
@@ -941,8 +948,8 @@ fn check_parts(start: &gen::Start, actions: &[Action], progs: &[Prog], aux: u64,
                         }
                         Arc::new(g)
                     };
-                    let con = guard(|| same_object_run(&mk_state(mk().unwrap()), 6, 40, first_query, true)).map_err(|p| Fail::new("C18:concurrent_panic", p))?;
-                    let seq = guard(|| same_object_run(&mk_state(mk().unwrap()), 6, 40, first_query, false)).map_err(|p| Fail::new("C18:sequential_panic", p))?;
+                    let con = guard(|| same_object_run(&mk_state(mk().unwrap()), 6, 12, first_query, true)).map_err(|p| Fail::new("C18:concurrent_panic", p))?;
+                    let seq = guard(|| same_object_run(&mk_state(mk().unwrap()), 6, 12, first_query, false)).map_err(|p| Fail::new("C18:sequential_panic", p))?;
                     for (i, (a, b)) in seq.iter().zip(con.iter()).enumerate() {
                         ensure!(a == b, "C18:transcript", "same-object scenario (target {}, first query {}), thread {} of {}: one state object asked by several threads at the same time, each starting at a different query, gave a transcript (hash {:#x}, {} items) that differs from the same queries on one thread (hash {:#x}, {} items); state reached by {}", ti, first_query, i, seq.len(), b.0, b.1, a.0, a.1, actions_text(path));
                     }
@@ -951,7 +958,19 @@ fn check_parts(start: &gen::Start, actions: &[Action], progs: &[Prog], aux: u64,
             st.bump("same_object_scenarios");
             // fresh-object race on the first target (a state for which something is withheld, if any) and on
             // its parent
+            // (only where the repetition rules withhold something: elsewhere nothing would show)
+            let withheld_something = guard(|| {
+                let mut g = build(mk().unwrap()).unwrap();
+                for a in targets[0].iter() {
+                    g = g.take_action(a);
+                }
+                g.valid_actions().len() != g.valid_actions_no_rep().len() || g.can_pass(true) != g.can_pass(false)
+            })
+            .unwrap_or(false);
             for cut in [0usize, 1] {
+                if !withheld_something {
+                    break;
+                }
                 let path = &targets[0];
                 if path.len() < cut + 1 {
                     continue;
